@@ -220,8 +220,8 @@ def main(pid, tier, seed):
     FR = ['été', 'Zoë9', 'crème', 'garçon', 'français', 'señor', 'niño', 'mañana', 'über', 'straße', 'größe', 'café', 'naïve', 'élève',
           'àbientôt', 'çava', 'façade', 'jalapeño', 'piñata', 'Køge', 'smörgåsbord', 'Ærø', 'fjäll']
     ASC = ['password', 'abc123', 'qwerty12', '12345', 'letmein', 'dragon', 'monkey1']
-    for enc_, words in (('cp1251', RU), ('koi8-r', RU), ('iso-8859-1', FR), ('utf-8', RU))[:(2 if tier == 'quick' else 4)] + (('utf-8', FR),):
-        for trial in range(1 if tier == 'quick' else 6):
+    for enc_, words in (('cp1251', RU), ('koi8-r', RU), ('iso-8859-1', FR), ('utf-8', RU)) + (('utf-8', FR),):
+        for trial in range(2 if tier == 'quick' else 8):
             pws = rng.sample(words, 20) + rng.sample(ASC, 4)
             rng.shuffle(pws)
             found = {}
